@@ -297,6 +297,7 @@ func init() {
 	c04bound := "integers: every INT1 and INT2 value, 22 boundary + 2000 (quick) / 50000 (thorough) seeded 64-bit patterns reused for INT4/INT8/UINT*/FLT* (bit patterns incl. NaN, Inf, -0) and MONEY/SHORTMONEY; DECN/NUMN for precisions 1..38 with boundary magnitudes and both signs; every 3rd (quick) / every (thorough) day of 0001-01-01..9999-12-31 for the calendar helpers and DATE, sampled BIGDATETIMEN / DATETIME ticks per day; SHORTDATE days x 6 minute values; every 997th (quick) / 7th (thorough) TIME tick; 300 random binary / character / unitext strings over all planes; NULL for every nullable type; reference codec written independently (own civil-date arithmetic, math/big, explicit byte composition)"
 	properties["C04"] = &Property{
 		ID:    "C04",
+		Level: "other",
 		Title: "Field values survive encoding and decoding unchanged",
 		Pkgs:  []string{"./asetypes", "./tds"},
 		Funcs: []string{`^\(asetypes\.DataType\)\.(GoValue|goValue)$`, `^\(\*tds\.fieldDataBase\)\.(readFrom|readFromStatus)$`, `^\(tds\.fieldDataBase\)\.(writeTo|writeToStatus)$`, `^\(\*tds\.fieldDataPrecisionScale\)\.ReadFrom$`},
@@ -316,6 +317,7 @@ func init() {
 	}
 	properties["C05"] = &Property{
 		ID:    "C05",
+		Level: "other",
 		Title: "Data type wire encodings match the TDS 5.0 layouts",
 		Pkgs:  []string{"./asetypes"},
 		Funcs: []string{`^\(asetypes\.DataType\)\.(GoValue|goValue)$`},
